@@ -168,24 +168,12 @@ func c11EscapeTables(c *Ctx) {
 				}
 			}
 		}
-		// widths: slice[1] == 'u' && len(slice) != 6
-		ast.Inspect(cc, func(n ast.Node) bool {
-			be, ok := n.(*ast.BinaryExpr)
-			if !ok || be.Op != token.LAND {
-				return true
-			}
-			l, ok1 := be.X.(*ast.BinaryExpr)
-			r, ok2 := be.Y.(*ast.BinaryExpr)
-			if !ok1 || !ok2 || l.Op != token.EQL || r.Op != token.NEQ {
-				return true
-			}
-			sel, ok3 := charConst(rpkg, l.Y)
-			w, ok4 := charConst(rpkg, r.Y)
-			if ok3 && ok4 {
-				readerWidth[sel] = int(w)
-			}
-			return true
-		})
+	}
+	// widths: on the paths where the selector is u (U) the length of the escape is compared with 6 (10)
+	if rfn := c.P.LookupFunc("hclsyntax", "ParseStringLiteralToken"); rfn != nil {
+		for sel, w := range readerHexWidths(rfn) {
+			readerWidth[rune(sel)] = w
+		}
 	}
 	var chars []rune
 	for ch := range writer {
@@ -505,6 +493,70 @@ func c11LabelsReadBack(c *Ctx) {
 		c.Fail("labels.decode", FuncName(fn)+":quoted-arm", fn.Pos(), "Current has no arm for quoted labels")
 		return
 	}
+	// a string that is the decoded text of literal tokens: a constant, result 0 of
+	// ParseStringLiteralToken, a strings.Builder all of whose parts are such, or result 0 of a helper
+	// of the package every return of which yields such a string
+	var decodedLabel func(v ssa.Value, d int) bool
+	decodedLabel = func(v ssa.Value, d int) bool {
+		if d > 3 {
+			return false
+		}
+		switch v := v.(type) {
+		case *ssa.Const:
+			return true
+		case *ssa.Phi:
+			for _, e := range v.Edges {
+				if !decodedLabel(e, d+1) {
+					return false
+				}
+			}
+			return len(v.Edges) > 0
+		case *ssa.Extract:
+			c2, ok := v.Tuple.(*ssa.Call)
+			if !ok || v.Index != 0 {
+				return false
+			}
+			if c2.Call.StaticCallee() == pslt {
+				return true
+			}
+			if h := c2.Call.StaticCallee(); h != nil && inModule(h) && len(h.Blocks) > 0 && fnPkg(h) == fnPkg(fn) {
+				any := false
+				for _, hb := range h.Blocks {
+					if r, ok := hb.Instrs[len(hb.Instrs)-1].(*ssa.Return); ok && len(r.Results) > 0 {
+						any = true
+						if !decodedLabel(r.Results[0], d+1) {
+							return false
+						}
+					}
+				}
+				return any
+			}
+		case *ssa.Call:
+			// (*strings.Builder).String(): every part written to the builder is decoded
+			if cal := v.Call.StaticCallee(); cal != nil && cal.Name() == "String" && len(v.Call.Args) == 1 {
+				if bl, ok := v.Call.Args[0].(*ssa.Alloc); ok && isNamed(bl.Type(), "strings", "Builder") {
+					okv := true
+					parts := 0
+					for _, r := range *bl.Referrers() {
+						w, ok := r.(*ssa.Call)
+						if !ok || w == v {
+							continue
+						}
+						wc := w.Call.StaticCallee()
+						if wc == nil || !strings.HasPrefix(wc.Name(), "Write") {
+							continue
+						}
+						parts++
+						if !decodedLabel(w.Call.Args[1], d+1) {
+							okv = false
+						}
+					}
+					return okv && parts > 0
+				}
+			}
+		}
+		return false
+	}
 	n := 0
 	for _, b := range fn.Blocks {
 		if !arm.Dominates(b) {
@@ -529,45 +581,7 @@ func c11LabelsReadBack(c *Ctx) {
 			}
 			for _, st := range storesInto(al) {
 				n++
-				okv := false
-				switch v := st.Val.(type) {
-				case *ssa.Const:
-					okv = true
-				case *ssa.Extract:
-					if c2, ok := v.Tuple.(*ssa.Call); ok && c2.Call.StaticCallee() == pslt {
-						okv = true
-					}
-				case *ssa.Call:
-					// (*strings.Builder).String(): every part written to the builder is decoded
-					if cal := v.Call.StaticCallee(); cal != nil && cal.Name() == "String" && len(v.Call.Args) == 1 {
-						if bl, ok := v.Call.Args[0].(*ssa.Alloc); ok && isNamed(bl.Type(), "strings", "Builder") {
-							okv = true
-							parts := 0
-							for _, r := range *bl.Referrers() {
-								w, ok := r.(*ssa.Call)
-								if !ok || w == v {
-									continue
-								}
-								wc := w.Call.StaticCallee()
-								if wc == nil || !strings.HasPrefix(wc.Name(), "Write") {
-									continue
-								}
-								parts++
-								ex, ok := w.Call.Args[1].(*ssa.Extract)
-								if !ok {
-									okv = false
-									continue
-								}
-								if c3, ok := ex.Tuple.(*ssa.Call); !ok || c3.Call.StaticCallee() != pslt || ex.Index != 0 {
-									okv = false
-								}
-							}
-							if parts == 0 {
-								okv = false
-							}
-						}
-					}
-				}
+				okv := decodedLabel(st.Val, 0)
 				c.Check(okv, "labels.decode", FuncName(fn)+":quoted-label", st.Pos(), "decoded by ParseStringLiteralToken",
 					"a quoted label is returned without being decoded by ParseStringLiteralToken: labels containing `$${`, `%%{` or backslash escapes read back differently from what was supplied")
 			}
@@ -624,4 +638,73 @@ func c11NumberExact(c *Ctx) {
 		}
 	}
 	c.Floor("number.exact conversions", n, 1, "the number arm of appendTokensForValue")
+}
+
+// readerHexWidths: for each escape selector (the byte at index 1 of the escape), the constant the
+// length of the escape is compared with on the paths where the selector has that value. The
+// constant may reach the comparison through a phi whose edges are selected by the selector.
+func readerHexWidths(fn *ssa.Function) map[byte]int {
+	isSubject := func(v ssa.Value) bool {
+		u, ok := v.(*ssa.UnOp)
+		if !ok || u.Op != token.MUL {
+			return false
+		}
+		ia, ok := u.X.(*ssa.IndexAddr)
+		if !ok {
+			return false
+		}
+		k, isC := constInt(ia.Index)
+		return isC && k == 1
+	}
+	in, edge := byteDomains(fn, isSubject)
+	out := map[byte]int{}
+	put := func(d byteDom, w int64) {
+		if d.neg {
+			return
+		}
+		for _, b := range d.values() {
+			if old, ok := out[b]; ok && old != int(w) {
+				out[b] = -1
+			} else {
+				out[b] = int(w)
+			}
+		}
+	}
+	for _, b := range fn.Blocks {
+		for _, ins := range b.Instrs {
+			bo, ok := ins.(*ssa.BinOp)
+			if !ok || (bo.Op != token.NEQ && bo.Op != token.EQL) {
+				continue
+			}
+			var w ssa.Value
+			if isLenCall(bo.X) {
+				w = bo.Y
+			} else if isLenCall(bo.Y) {
+				w = bo.X
+			} else {
+				continue
+			}
+			if k, isC := constInt(w); isC {
+				put(in[b], k)
+				continue
+			}
+			if ph, ok := w.(*ssa.Phi); ok {
+				for i, e := range ph.Edges {
+					if k, isC := constInt(e); isC {
+						put(edge[[2]*ssa.BasicBlock{ph.Block().Preds[i], ph.Block()}], k)
+					}
+				}
+			}
+		}
+	}
+	return out
+}
+
+func isLenCall(v ssa.Value) bool {
+	call, ok := v.(*ssa.Call)
+	if !ok {
+		return false
+	}
+	b, ok := call.Call.Value.(*ssa.Builtin)
+	return ok && b.Name() == "len"
 }
